@@ -492,13 +492,15 @@ func (e *kvElection) attemptPriorityTakeover(payloadBytes []byte) error {
 	return nil
 }
 
-func (e *kvElection) becomeFollower() {
+// becomeFollower moves the election to the follower state and reports whether it was
+// leader before, i.e. whether this call ended a term (and OnDemote is due exactly once).
+func (e *kvElection) becomeFollower() bool {
 	e.mu.Lock()
 	defer e.mu.Unlock()
 
 	if e.stoppedLocked() {
 		// a stopped election stays STOPPED and starts no new watcher
-		return
+		return false
 	}
 
 	fromState := StateInit
@@ -537,6 +539,25 @@ func (e *kvElection) becomeFollower() {
 			defer e.wg.Done()
 			e.watchLoop(e.ctx)
 		}()
+	}
+
+	return wasLeader
+}
+
+// notifyDemoted invokes the OnDemote callback after a term has ended.
+func (e *kvElection) notifyDemoted(reason string) {
+	e.mu.RLock()
+	onDemote := e.onDemote
+	e.mu.RUnlock()
+
+	if onDemote != nil {
+		log := e.getLogger()
+		log.Info("leader_demoted",
+			append(e.logWithContext(e.ctx),
+				zap.String("reason", reason),
+			)...,
+		)
+		onDemote()
 	}
 }
 
